@@ -106,7 +106,7 @@ type child struct {
 
 func startChild() (*child, error) {
 	cmd := exec.Command(os.Args[0], "-child")
-	cmd.Env = append(os.Environ(), "GOMEMLIMIT=3GiB")
+	cmd.Env = append(os.Environ(), "GOMEMLIMIT=1GiB") // soft: the collector works harder beyond it; the hard cap is RLIMIT_AS in the child
 	stdin, err := cmd.StdinPipe()
 	if err != nil {
 		return nil, err
@@ -148,19 +148,23 @@ func (c *child) stop() {
 	}
 }
 
-// jobTimeout: backstop only; the child has its own per-run watchdog.
+// jobTimeout: backstop only (a starved or wedged child); the child has its own per-run watchdog.
+// Generous on purpose: hitting it never makes a violation by itself, the job's cases are re-run
+// alone in the confirmation pass.
 func jobTimeout(j job) time.Duration {
-	if j.Kind == jobSchedule {
-		return 15 * time.Minute
-	}
-	if j.Kind == jobBatch {
-		d := 20 * time.Second
+	switch j.Kind {
+	case jobSchedule:
+		return 30 * time.Minute
+	case jobBatch:
+		d := 2 * time.Minute
 		for _, c := range j.Batch {
-			d += budget(len(c.Input))
+			d += 3 * budget(len(c.Input))
 		}
 		return d
+	case jobConfirm:
+		return 12*budget(len(j.C.Input)) + 2*time.Minute
 	}
-	return budget(len(j.C.Input)) + 20*time.Second
+	return 4*budget(len(j.C.Input)) + 2*time.Minute
 }
 
 // runner owns one child and runs jobs on it synchronously.
@@ -172,6 +176,7 @@ type runner struct {
 // violation of kind crash / hang attributed to the job's case.
 func (r *runner) run(j job) *sink {
 	firstMsg := ""
+	_ = firstMsg
 	for attempt := 0; ; attempt++ {
 		if r.c == nil {
 			c, err := startChild()
@@ -207,36 +212,51 @@ func (r *runner) run(j job) *sink {
 				return s
 			}
 		}
-		// the child is gone (or answered garbage)
+		// the child is gone (or answered garbage, or was killed by the backstop)
 		r.c.stdin.Close()
 		werr2 := r.c.cmd.Wait()
 		msg := r.c.stderr.String()
 		r.c = nil
-		if attempt == 0 {
-			// whatever happened (the child had died before the job was written, was killed by the
-			// kernel, starved past the backstop, or really crashed on this job): only a failure that
-			// repeats on a fresh child is attributed to the job
-			firstMsg = msg
-			continue
-		}
+		fatal := strings.Contains(msg, "fatal error") || strings.Contains(msg, "stack overflow") || strings.Contains(msg, "goroutine stack exceeds") || strings.Contains(msg, "out of memory") || strings.Contains(msg, "cannot allocate")
 		s := newSink()
-		kind, sub := "crash", "fatal"
+		if !fatal {
+			// No diagnostic from the Go runtime: the child was killed from outside (kernel OOM killer of a
+			// memory cgroup, the backstop on a starved machine) or had died before the job was written.
+			// That says nothing about the decoder: the cases go to the confirmation pass (alone, CPU-time
+			// watchdog); in the confirmation pass itself the outcome is recorded as inconclusive.
+			s.count("child-died-without-diagnostic")
+			if j.Kind == jobConfirm || j.Kind == jobProbe {
+				s.count("inconclusive:child-killed-in-confirmation")
+				return s
+			}
+			if j.Kind == jobBatch {
+				s.Suspects = append(s.Suspects, j.Batch...)
+			} else {
+				s.Suspects = append(s.Suspects, j.C)
+			}
+			return s
+		}
+		if attempt == 0 && j.Kind != jobBatch {
+			firstMsg = msg
+			continue // a fatal error must repeat on a fresh child before it is attributed to the job
+		}
+		if j.Kind == jobBatch {
+			s.count("child-crash-in-batch")
+			s.Viols = append(s.Viols, violation{Prop: "C05", Kind: "crash", Format: j.C.Format, Sub: "batch", Detail: "fatal error somewhere in a batch", Case: j.C})
+			return s // farm re-runs the cases of the batch one by one
+		}
+		sub := "fatal"
 		switch {
 		case strings.Contains(msg, "stack overflow") || strings.Contains(msg, "goroutine stack exceeds"):
 			sub = "stack-overflow:" + firstRepoFrameText(msg)
 		case strings.Contains(msg, "out of memory") || strings.Contains(msg, "cannot allocate"):
 			sub = "out-of-memory:" + hangSub(j.C)
-		case werr2 != nil && strings.Contains(werr2.Error(), "killed"):
-			kind, sub = "hang", hangSub(j.C)
 		}
 		if len(msg) > 500 {
 			msg = msg[:500]
 		}
-		if msg == "" {
-			msg = firstMsg
-		}
 		s.count("child-crash:" + sub)
-		s.add(violation{Prop: "C05", Kind: kind, Format: j.C.Format, Sub: sub, Detail: fmt.Sprintf("child process died (%v): %s", werr2, msg), Case: j.C})
+		s.add(violation{Prop: "C05", Kind: "crash", Format: j.C.Format, Sub: sub, Detail: fmt.Sprintf("child process died (%v), twice: %s", werr2, msg), Case: j.C})
 		return s
 	}
 }
@@ -274,7 +294,7 @@ func (e *engine) farm(nw int, produce func(emit func(job))) {
 			defer r.close()
 			for j := range ch {
 				s := r.run(j)
-				if j.Kind == jobBatch && len(s.Evals) == 0 && len(s.Viols) > 0 && (s.Viols[0].Kind == "crash" || s.Viols[0].Kind == "hang") {
+				if j.Kind == jobBatch && len(s.Evals) == 0 && len(s.Viols) == 1 && s.Viols[0].Sub == "batch" {
 					// the child died somewhere in the batch
 					for _, c := range j.Batch {
 						e.merge(r.run(job{Kind: jobSingle, C: c}))
